@@ -277,6 +277,9 @@ enum Path {
     AssetInit,
     AssetDefault,
     Position,
+    /// as `Position`, but the exits' exchange times are not in arrival order (two venues with skewed
+    /// clocks feed one tear sheet): a point's time is whatever its record says
+    PositionUnordered,
 }
 
 const PATHS: [Path; 5] = [Path::Direct, Path::DirectInit, Path::AssetInit, Path::AssetDefault, Path::Position];
@@ -289,10 +292,11 @@ impl Path {
             Path::AssetInit => "asset_init",
             Path::AssetDefault => "asset_default",
             Path::Position => "position",
+            Path::PositionUnordered => "position_unordered_times",
         }
     }
     fn parse(s: &str) -> Path {
-        *PATHS.iter().find(|p| p.name() == s).unwrap_or_else(|| panic!("unknown path {s}"))
+        *PATHS.iter().chain([Path::PositionUnordered].iter()).find(|p| p.name() == s).unwrap_or_else(|| panic!("unknown path {s}"))
     }
 }
 
@@ -318,8 +322,13 @@ struct FinalObs {
     last_value: Option<Decimal>,
 }
 
+fn locked(p: &Point) -> Decimal {
+    (p.v.abs() * Decimal::new(6, 1)).round_dp(8)
+}
+
 fn asset_balance(p: &Point) -> AssetBalance<AssetIndex> {
-    AssetBalance { asset: AssetIndex(0), balance: Balance::new(p.v, p.v), time_exchange: t(p.t) }
+    // part of the balance is locked in open orders: the equity curve is the TOTAL
+    AssetBalance { asset: AssetIndex(0), balance: Balance::new(p.v, p.v - locked(p)), time_exchange: t(p.t) }
 }
 
 impl Sut {
@@ -329,7 +338,7 @@ impl Sut {
             Path::DirectInit => Sut::Direct { g: None, maxg: None, meang: None, init: true },
             Path::AssetInit => Sut::Asset { g: None, init: true },
             Path::AssetDefault => Sut::Asset { g: None, init: false },
-            Path::Position => Sut::Position { g: None, prev: Decimal::ZERO },
+            Path::Position | Path::PositionUnordered => Sut::Position { g: None, prev: Decimal::ZERO },
         }
     }
 
@@ -362,7 +371,7 @@ impl Sut {
             }
             Sut::Asset { g, init } => {
                 match g {
-                    None if *init => *g = Some(TearSheetAssetGenerator::init(&Timed::new(Balance::new(p.v, p.v), t(p.t)))),
+                    None if *init => *g = Some(TearSheetAssetGenerator::init(&Timed::new(Balance::new(p.v, p.v - locked(p)), t(p.t)))),
                     None => {
                         let mut fresh = TearSheetAssetGenerator::default();
                         fresh.update_from_balance(Snapshot(&asset_balance(p)));
@@ -477,6 +486,10 @@ struct RunStats {
 
 fn in_domain(points: &[Point]) -> bool {
     !points.is_empty() && points[0].v > Decimal::ZERO && points.windows(2).all(|w| w[0].t <= w[1].t)
+}
+
+fn in_domain_for(path: Path, points: &[Point]) -> bool {
+    if path == Path::PositionUnordered { !points.is_empty() && points[0].v > Decimal::ZERO } else { in_domain(points) }
 }
 
 /// What the real code did on one curve: the observation after every point, the outputs of the
@@ -648,7 +661,7 @@ fn points_parse(v: &Value) -> Vec<Point> {
 }
 
 fn execute(path: Path, class: &str, points: &[Point], id: &str, report: &mut Report, log: Option<&LogSink>) {
-    debug_assert!(in_domain(points));
+    debug_assert!(in_domain_for(path, points));
     let mut stats = RunStats::default();
     let (seen, res) = run_curve(path, points, &mut stats);
     report.events_observed += stats.steps;
@@ -671,7 +684,7 @@ fn execute(path: Path, class: &str, points: &[Point], id: &str, report: &mut Rep
     }
     if let Err((sig, detail)) = res {
         let small = shrink(points, |cand| {
-            in_domain(cand) && matches!(run_curve(path, cand, &mut RunStats::default()).1, Err((s, _)) if s == sig)
+            in_domain_for(path, cand) && matches!(run_curve(path, cand, &mut RunStats::default()).1, Err((s, _)) if s == sig)
         });
         let detail_small = match run_curve(path, &small, &mut RunStats::default()).1 {
             Err((_, dd)) => dd,
@@ -885,6 +898,14 @@ fn main() {
             for path in [direct, asset, Path::Position] {
                 execute(path, class, &pts, &format!("r{w}-{i}-{}", path.name()), report, do_log.then_some(&log));
             }
+            // the same curve with every second point stamped by a venue whose clock lags 90 s (never logged
+            // for the offline oracle, which assumes arrival order = time order)
+            if i % 4 == 0 {
+                let skewed: Vec<Point> = pts.iter().enumerate().map(|(k, p)| Point { t: p.t - if k % 2 == 1 { 90_000 } else { 0 }, ..p.clone() }).collect();
+                if skewed.windows(2).any(|w| w[0].t > w[1].t) {
+                    execute(Path::PositionUnordered, class, &skewed, &format!("r{w}-{i}-unordered"), report, None);
+                }
+            }
         }
     });
     log.flush();
@@ -894,6 +915,9 @@ fn main() {
     ));
     for p in PATHS {
         report.require(&format!("path:{}", p.name()));
+    }
+    if !small {
+        report.require("path:position_unordered_times");
     }
     for c in CLASSES {
         report.require(&format!("class:{c}"));
